@@ -491,7 +491,7 @@ def World.insertUnit (w : World) (u s : Nat) (inlet outlet : Option PortRef) :
           | some o => do pure (← replaceIn w .i sink s o, false)
           | none => .error .indexError
         else .error .valueError
-      else do pure (← w.on .o (·.append u s), true)
+      else pure (w, true)     -- `stream` becomes the new outlet: appended at the end
     | some (.strm o) =>
       -- a placeholder object is not an `AbstractStream`: `self.outs[outlet]` → TypeError
       if !w.real o then .error .typeError
@@ -501,23 +501,25 @@ def World.insertUnit (w : World) (u s : Nat) (inlet outlet : Option PortRef) :
       match (w.outs.lst u)[i]? with
       | some o => do pure (← replaceIn w .i sink s o, false)
       | none => .error .indexError
-  match inlet with
-  | none =>
-    if w1.ins.fixed u || added then
-      if w1.ins.size u = 1 then
-        match (w1.ins.lst u)[0]? with
-        | some a => replaceIn w1 .o source s a
-        | none => .error .indexError
-      else .error .valueError
-    else w1.on .i (·.append u s)
-  | some (.strm a) =>
-    if !w1.real a then .error .typeError
-    else if w1.ins.loc a ≠ some u then .error .valueError
-    else replaceIn w1 .o source s a
-  | some (.idx i) =>
-    match (w1.outs.lst u)[i]? with
-    | some a => replaceIn w1 .o source s a
-    | none => .error .indexError
+  let w2 ← match inlet with
+    | none =>
+      if w1.ins.fixed u || added then
+        if w1.ins.size u = 1 then
+          match (w1.ins.lst u)[0]? with
+          | some a => replaceIn w1 .o source s a
+          | none => .error .indexError
+        else .error .valueError
+      else w1.on .i (·.append u s)
+    | some (.strm a) =>
+      if !w1.real a then .error .typeError
+      else if w1.ins.loc a ≠ some u then .error .valueError
+      else replaceIn w1 .o source s a
+    | some (.idx i) =>
+      match (w1.outs.lst u)[i]? with
+      | some a => replaceIn w1 .o source s a
+      | none => .error .indexError
+  -- once the old source has let go of it, the stream is appended to the extendable outlets
+  if added then w2.on .o (·.append u s) else .ok w2
 
 /-! ## Operations as data -/
 
